@@ -326,6 +326,14 @@ func runC06(c *Ctx) {
 		}
 	}
 	c.Floor(r2s, 1)
+	checkCopyFlagBits(c)
+	c.Floor("copy-flag-bits-agree", 3)
+	for _, fi := range p.FuncsIn(pfShort) {
+		if fi.Decl.Body != nil && !p.isTestFile(fi.Decl.Pos()) {
+			CursorFollowsReader(c, "cursor-follows-reader", fi)
+		}
+	}
+	c.Floor("cursor-follows-reader", 1)
 }
 
 func condHasNeqWith(info *types.Info, e ast.Expr, varName string) bool {
